@@ -659,6 +659,9 @@ class Component( ComponentLevel7 ):
 
   # is_lambda?, src, line, filename, ast
   def get_update_block_info( s, blk ):
+    # A lambda block may differ between instances of the same class
+    if blk.__name__ in s._dsl.lambda_info:
+      return s._dsl.lambda_info[ blk.__name__ ]
     try:
       name_info = s.__class__._name_info
     except AttributeError: # This component doesn't have update block
